@@ -48,6 +48,9 @@ var decos = []struct {
 	{"blank-lines", "\n\n", "raw"},
 	{"tab-spaces", "\t  ", "raw"},
 	{"newline", "\n", "raw"},
+	// comment text that looks like code: parentheses (capture groups are counted in patterns), quotes, a semicolon
+	{"block-parens", "/* (c) (d \"e\"; */", "inline"},
+	{"sharp-parens", "# (c) (d \"e\";", "inline"},
 	{"carriage-return", "\r", "raw"},
 	{"crlf", "\r\n", "raw"},
 }
@@ -175,6 +178,17 @@ func gen09(tier string, emit func(Case)) {
 			panic(fmt.Sprintf("exec program %d does not parse: %v", i, err))
 		}
 		progs = append(progs, prog{gen.FromAST(vcl.Statements), fmt.Sprintf("exec%d", i), true})
+	}
+	// lint-only programs whose diagnostics depend on counting: capture groups of patterns vs. re.group.N uses
+	for i, src := range []string{
+		"sub vcl_recv {\n  if (req.url ~ \"^/v1/(.*)$\") {\n    set req.http.X-Tail = re.group.2;\n  }\n  if (req.http.A !~ \"(a)(b)\") {\n    set req.http.B = re.group.1;\n  }\n  set req.http.C = if(req.url ~ \"(c)\", re.group.1, re.group.3);\n}\n",
+		"sub vcl_recv {\n  if (req.url ~ \"(a)\" && req.http.B ~ \"(b)(c)\") {\n    set req.http.G = re.group.2 re.group.3;\n  } else if (req.url ~ \"x\") {\n    set req.http.G = re.group.1;\n  }\n}\n",
+	} {
+		vcl, err := parser.New(lexer.NewFromString(src)).ParseVCL()
+		if err != nil {
+			panic(fmt.Sprintf("lint program %d does not parse: %v", i, err))
+		}
+		progs = append(progs, prog{gen.FromAST(vcl.Statements), fmt.Sprintf("lint%d", i), false})
 	}
 	for _, p := range progs {
 		toks := gen.Tokens(p.root)
